@@ -33,19 +33,21 @@ STR == B("string")
 
 FieldKinds(self) == {"i2i", "i2s", "ptrA", "ptrB", "slcA", "slcB"} \cup (IF self = "A" THEN {"valB"} ELSE {})
 \* further kinds (second program set): string -> string, and maps with a named-struct value, a converted key, a converted value
-MoreKinds == {"s2s", "mapB", "mapK", "mapV"}
+\* ... and *B -> B2, *int -> string through E (SourcePointer, needs useZeroValueOnPointerInconsistency: the harness sets it for these programs)
+\* ... and a target field int matched with a source *method* F() int / F() (int, error) (fallible iff extErr)
+MoreKinds == {"s2s", "mapB", "mapK", "mapV", "p2vB", "p2s", "mth"}
 SrcT(fk) == CASE fk \in {"i2i", "i2s"} -> INT
-              [] fk = "s2s" -> STR
+              [] fk = "s2s" -> STR [] fk = "p2s" -> P(INT) [] fk = "mth" -> [k |-> "meth", b |-> "int"]
               [] fk = "mapB" -> M(STR, N("B")) [] fk = "mapK" -> M(INT, INT) [] fk = "mapV" -> M(STR, INT)
-              [] fk = "ptrA" -> P(N("A")) [] fk = "ptrB" -> P(N("B"))
+              [] fk = "ptrA" -> P(N("A")) [] fk \in {"ptrB", "p2vB"} -> P(N("B"))
               [] fk = "slcA" -> S(N("A")) [] fk = "slcB" -> S(N("B"))
               [] fk = "valB" -> N("B")
-TgtT(fk) == CASE fk = "i2i" -> INT [] fk = "i2s" -> STR
-              [] fk = "s2s" -> STR
+TgtT(fk) == CASE fk \in {"i2i", "mth"} -> INT [] fk = "i2s" -> STR
+              [] fk \in {"s2s", "p2s"} -> STR
               [] fk = "mapB" -> M(STR, N("B2")) [] fk = "mapK" -> M(STR, INT) [] fk = "mapV" -> M(STR, STR)
               [] fk = "ptrA" -> P(N("A2")) [] fk = "ptrB" -> P(N("B2"))
               [] fk = "slcA" -> S(N("A2")) [] fk = "slcB" -> S(N("B2"))
-              [] fk = "valB" -> N("B2")
+              [] fk \in {"valB", "p2vB"} -> N("B2")
 FieldNames == <<"F", "G">>
 Shapes(self) == {<<a>> : a \in FieldKinds(self)} \cup {<<a, b>> : a \in FieldKinds(self), b \in FieldKinds(self)}
 FieldsOf(shape, id) ==
@@ -136,6 +138,8 @@ Conv(prog, st, m, seen, s, t, av, top) ==
 Rule(prog, st, m, seen, s, t, av, top) ==
   IF s.k = "ptr" /\ t.k = "ptr" THEN
      LET r == Conv(prog, st, m, seen, s.e, t.e, av, FALSE) IN [r EXCEPT !.ir = [k |-> "ptrptr", x |-> r.ir]]
+  ELSE IF s.k = "ptr" /\ t.k # "ptr" THEN                                  \* SourcePointer: nil gives the zero value of the target
+     LET r == Conv(prog, st, m, seen, s.e, t, av, FALSE) IN [r EXCEPT !.ir = [k |-> "srcptr", x |-> r.ir, t |-> t]]
   ELSE IF s.k # "ptr" /\ t.k = "ptr" THEN
      LET r == Conv(prog, st, m, seen, s, t.e, av, FALSE) IN [r EXCEPT !.ir = [k |-> "valptr", x |-> r.ir]]
   ELSE IF s.k = "basic" /\ t.k = "basic" /\ s.b = t.b THEN [st |-> st, seen |-> seen, ir |-> [k |-> "copy"]]
@@ -152,6 +156,9 @@ Rule(prog, st, m, seen, s, t, av, top) ==
 FieldsLoop(prog, st, m, seen, sfs, tfs, i, acc, av, top) ==
   IF st.fail # "" THEN [st |-> st, seen |-> seen, ir |-> NoBody]
   ELSE IF i > Len(tfs) THEN [st |-> st, seen |-> seen, ir |-> [k |-> "struct", fs |-> acc, names |-> [j \in DOMAIN tfs |-> tfs[j].n]]]
+  ELSE IF sfs[i].t.k = "meth" THEN                                        \* source method: called in place, its error makes the method fallible
+       LET st1 == IF prog.extErr THEN NeedErr(st, m) ELSE st IN
+       FieldsLoop(prog, st1, m, seen, sfs, tfs, i + 1, Append(acc, [src |-> i, x |-> [k |-> "mth", retErr |-> prog.extErr]]), av, top)
   ELSE LET r == Conv(prog, st, m, seen, sfs[i].t, tfs[i].t, av, FALSE)
        IN FieldsLoop(prog, r.st, m, r.seen, sfs, tfs, i + 1, Append(acc, [src |-> i, x |-> r.ir]), av, top)
 
@@ -191,13 +198,14 @@ Gen(prog) == Generate(prog, Init0(prog), 12)
 RECURSIVE Calls(_), HasFallibleExt(_), Exts(_)
 Calls(ir) ==
   CASE ir.k = "call" -> {ir}
-    [] ir.k \in {"ptrptr", "valptr", "slice"} -> Calls(ir.x)
+    [] ir.k \in {"ptrptr", "valptr", "srcptr", "slice"} -> Calls(ir.x)
     [] ir.k = "map" -> Calls(ir.kx) \cup Calls(ir.vx)
     [] ir.k = "struct" -> UNION {Calls(ir.fs[i].x) : i \in DOMAIN ir.fs}
     [] OTHER -> {}
 Exts(ir) ==
   CASE ir.k = "ext" -> {ir}
-    [] ir.k \in {"ptrptr", "valptr", "slice"} -> Exts(ir.x)
+    [] ir.k = "mth" -> {[k |-> "ext", fn |-> "M", retErr |-> ir.retErr, passCtx |-> FALSE, needCtx |-> FALSE]}
+    [] ir.k \in {"ptrptr", "valptr", "srcptr", "slice"} -> Exts(ir.x)
     [] ir.k = "map" -> Exts(ir.kx) \cup Exts(ir.vx)
     [] ir.k = "struct" -> UNION {Exts(ir.fs[i].x) : i \in DOMAIN ir.fs}
     [] OTHER -> {}
@@ -226,11 +234,11 @@ Progs == { [shape |-> [A |-> a, B |-> b], rootErr |-> re, extErr |-> xe, rootCtx
 AllKindsA == FieldKinds("A") \cup MoreKinds
 ShapesMore == {<<a>> : a \in AllKindsA} \cup {<<a, b>> : a \in AllKindsA, b \in AllKindsA}
 ProgsMore == { [shape |-> [A |-> a, B |-> b], rootErr |-> eb[1], extErr |-> eb[2], rootCtx |-> FALSE, extCtx |-> FALSE, extId |-> xi, wrap |-> w, declB |-> "none"] :
-                 a \in {x \in ShapesMore : \E i \in DOMAIN x : x[i] \in MoreKinds}, b \in {<<"i2i">>, <<"i2s">>, <<"i2s", "ptrB">>, <<"s2s", "i2s">>},
+                 a \in {x \in ShapesMore : \E i \in DOMAIN x : x[i] \in MoreKinds}, b \in {<<"i2i">>, <<"i2s">>, <<"i2s", "ptrB">>, <<"s2s", "i2s">>, <<"p2s", "i2i">>, <<"mth", "i2i">>},
                  eb \in {<<TRUE, TRUE>>, <<FALSE, FALSE>>, <<TRUE, FALSE>>}, xi \in BOOLEAN, w \in {"none", "using"} }
 \* programs in which B is reachable from A (otherwise B's shape is irrelevant): one representative shape for B
 Reaches(a) == \E i \in DOMAIN a : a[i] \in {"ptrB", "slcB", "valB"}
-Reaches2(a) == \E i \in DOMAIN a : a[i] \in {"ptrB", "slcB", "valB", "mapB"}
+Reaches2(a) == \E i \in DOMAIN a : a[i] \in {"ptrB", "slcB", "valB", "mapB", "p2vB"}
 \* third program set: a second declared method for B -> B2, with and without a context parameter
 ProgsDecl == { [shape |-> [A |-> a, B |-> b], rootErr |-> FALSE, extErr |-> FALSE, rootCtx |-> rc, extCtx |-> FALSE, extId |-> FALSE, wrap |-> "none", declB |-> db] :
                  a \in {x \in ShapesMore : Reaches2(x)}, b \in {<<"i2i">>, <<"i2i", "ptrB">>}, rc \in BOOLEAN, db \in {"plain", "ctx"} }
